@@ -287,7 +287,8 @@ def gen_csv_pattern(rnd):
     elif k < 0.72:
         p = f'{w}('                             # re.error: skipped
     elif k < 0.75:
-        p = rnd.choice([f'{w.lower()}', f'^{w}', f'{w2}$'])
+        p = rnd.choice([f'{w.lower()}', f'^{w}', f'{w2}$', f'{w} \\d+', f'{w} \\D+', f'{w}\\s', f'{w}\\S', f'{w}\\b', f'{w}\\B',
+                        f'{w}\\W+\\w', f'{w}\\w+'])
     elif k < 0.78:
         p = rnd.choice(['field.memo == "ref"', f'contains("{w}")', 'amount > 100', 'source=web', f'regex("{w}") and amount > 50'])
     else:
@@ -894,6 +895,17 @@ def judge_one_load(c, jr):
         if 'rows_error' in ol:
             out.append((None, mode, 'mcs', {'why': 'parse_generic_csv failed on the generated statement', 'error': ol['rows_error']}))
             continue
+        an = ol.get('analysis') or {}
+        if 'error' in an:
+            out.append((None, mode, 'tags', {'why': 'analyze_transactions failed on the parsed statement', 'error': an['error']}))
+        elif an:
+            for k, (a, b) in enumerate(zip(an['before'], an['after'])):
+                if a != b:
+                    out.append((None, mode, 'tags', {
+                        'why': f'analyze_transactions ({mode}) changed the tags of statement row #{k}: after the analysis pass the transaction '
+                               'carries tags of rules that do not match it', 'row': ol['rows'][k]['txn'] if k < len(ol.get('rows', [])) else k,
+                        'tags_before_analysis': a, 'tags_after_analysis': b}))
+                    break
         for k, row in enumerate(ol.get('rows', [])):
             if 'crash' in row['ref']:
                 continue
